@@ -123,6 +123,7 @@ func C20() *vk.Check {
 		Profile: func(r *vk.RNG) app.Profile {
 			p := specProfile(r)
 			p.EndNodes = true
+			p.Hostile = r.Chance(1, 3) // functions that name reserved flags too, also in front of TERMINATE
 			p.Terminate = r.Chance(1, 2)
 			p.Croak = r.Chance(1, 3)
 			p.Lang = false
